@@ -324,28 +324,6 @@ def firstReal : CT → Option CKind
   | .leaf _ _ => some .other
   | .ctl hdr _ _ _ => some (.ctl hdr.kw false)
 
-/-- the node writes something in place (it is no `silent` node) -/
-def Leaf.writes : Leaf → Bool
-  | .silent _ _ => false
-  | _ => true
-
--- `noSilent`: every node of a body writes something (no `silent` node), at any depth
-mutual
-def noSilent : CT → Bool
-  | .nil => true
-  | .leaf k rest => k.writes && noSilent rest
-  | .ctl _ body terns rest => noSilent body && noSilentT terns && noSilent rest
-def noSilentT : Terns → Bool
-  | .nil => true
-  | .cons _ body more => noSilent body && noSilentT more
-end
-
-/-- the control structures of a body (the top level of the body itself may hold silent nodes: `<%def>` …) -/
-def ctlBodiesWrite : CT → Bool
-  | .nil => true
-  | .leaf _ rest => ctlBodiesWrite rest
-  | .ctl _ body terns rest => noSilent body && noSilentT terns && ctlBodiesWrite rest
-
 /-! ## `LoopContext` -/
 
 structure LoopCtx where
